@@ -25,11 +25,11 @@ def design_checks(tier):
 
 
 def cases(tier, seed):
-    n = 70 if tier == "quick" else 900
+    n = 80 if tier == "quick" else 900
     rng = random.Random(seed * 353868013 + 9)
     out = []
     for k in range(n):
-        path = rng.choice(["TTFs", "TTFsFromDS", "TTFsFromDS", "OTFsFromDS"])
+        path = rng.choice(["TTFs", "TTFsFromDS", "TTFsFromDS", "OTFsFromDS", "OTFsFromDS"])
         kinds = ["line", "cubic", "mixed"] if path == "OTFsFromDS" else ["line", "quad", "cubic", "mixed"]
         base = gen.glyphset(rng, nmin=3, nmax=6, max_depth=2, kinds=kinds, palette=c02.PALETTE_TT, unicodes=True)
         directed = None
@@ -62,7 +62,7 @@ def cases(tier, seed):
             sparse = {n_: sp[n_] for n_ in sorted(pick)}
         # a tie that exists in ONE master only: two consecutive on-curve points coincide (a collapsed notch), in the
         # other masters they are distinct -- any per-master decision to drop the zero-length segment breaks compatibility
-        if rng.random() < TIE_PROB:
+        if rng.random() < (0.8 if path == "OTFsFromDS" else TIE_PROB):
             which = rng.randrange(nm)
             for g in masters[which].values():
                 for c in g["cs"]:
